@@ -111,6 +111,27 @@ func newProverE(c *Engine, fa *FnAnalysis, st *State) *bndProver {
 			}
 		}
 	}
+	// lemma (R-INV stack.index): a lookup known to have found its element returned a position in [1, len-1]
+	if c.indexLemma {
+		for _, f := range st.factList() {
+			if f.Kind != aTR || !f.Val || f.T.K != "X" || f.T.N != 2 || f.T.A == nil || f.T.A.K != "APP" || f.T.A.S != "stack.index" || f.T.A.A == nil {
+				continue
+			}
+			h := f.T.A.A.A
+			post := c.tt.mk(Term{K: "X", A: f.T.A, N: 1})
+			lenT := c.tt.mk(Term{K: "LEN", A: h})
+			sub := map[*Term]bool{}
+			lp, ok1 := p.lin(post, sub)
+			ll, ok2 := p.lin(lenT, sub)
+			if ok1 && ok2 {
+				for t := range sub {
+					atoms[t] = true
+				}
+				p.sys.addLE(linConst(1), lp)
+				p.sys.addLT(lp, ll)
+			}
+		}
+	}
 	p.axioms(atoms)
 	p.relateArith(arith, atoms)
 	// disequalities: a != b strengthens a one-sided bound (a >= b  =>  a >= b+1)
@@ -152,7 +173,16 @@ func (p *bndProver) lin(t *Term, atoms map[*Term]bool) (*linExpr, bool) {
 		if strings.HasPrefix(t.S, "int") || t.S == "uint" || t.S == "uint64" {
 			return p.lin(t.A, atoms)
 		}
-	case "N", "MI", "TA", "TAOK", "ISNIL", "TYPEOF", "VALOF", "FA", "IA":
+	case "TA":
+		// the value of a checked assertion to an integer type is an integer like any other
+		if t.Typ != nil {
+			if b, ok := t.Typ.Underlying().(*types.Basic); ok && b.Info()&types.IsInteger != 0 {
+				atoms[t] = true
+				return linAtom(t), true
+			}
+		}
+		return nil, false
+	case "N", "MI", "TAOK", "ISNIL", "TYPEOF", "VALOF", "FA", "IA":
 		return nil, false
 	case "B":
 		if t.S == "(+)" {
